@@ -60,6 +60,17 @@ def run(ctx):
             emin = min([e_rate(i, k) for i, j, dx, k in jumps] + [x // 2 for x in es])
             for Nmax in ((4, 6) if rep == 0 else (4,)):
                 G = GFcalc.GFCrystalcalc(crys, chem, s.sitelist, s.jumpnetwork, Nmax)
+                if Nmax == 4:
+                    # the calculator is a function of its LAST SetRates input: first set different site energies
+                    # whose symmetrised jump rates coincide with the final ones (site class c shifted by a_c, the
+                    # barrier of a jump between classes c, c' by (a_c + a_c')/2) -- only the escape rates differ
+                    a = [2 * rng.randint(0, 1) for _ in range(s.Nsite)]
+                    if s.Nsite > 1 and len(set(a)) == 1:
+                        a[0] = 2 - a[0]
+                    dprev = dict(d, eneL=[e + x for e, x in zip(d["eneL"], a)],
+                                 eneTL=[e + (a[inv[cls[0][0][0]]] + a[inv[cls[0][0][1]]]) // 2
+                                        for e, cls in zip(d["eneTL"], s.jumpnetwork)])
+                    G.SetRates(*calc.interstitial_args(dprev))
                 G.SetRates(*args)
                 tens, asserts = {"delta": np.array([[2.0 ** (-emin)]])}, []
                 vals, exact = {}, {}
